@@ -29,6 +29,9 @@ var seqImports = map[string][2]string{
 	"os/signal": {"signal", modPath + "/verifshim/vsignal"},
 }
 
+// packages whose concurrency is put under the controlled scheduler in sched mode
+var schedPkgs = map[string]bool{".": true, "ansi": true, "widgets/spinner": true}
+
 type multi []string
 
 func (m *multi) String() string     { return strings.Join(*m, ",") }
@@ -89,7 +92,11 @@ func main() {
 				if err != nil {
 					fatal("%v", err)
 				}
-				res, changed, err := rewrite(target, data, *mode)
+				m := *mode
+				if m == "sched" && !schedPkgs[pkg] {
+					m = "seq"
+				}
+				res, changed, err := rewrite(target, data, m)
 				if err != nil {
 					fatal("%s: %v", target, err)
 				}
